@@ -165,21 +165,44 @@ def make_plugin(case):
     return p
 
 
-def real_run(case, enc="endtime"):
-    """-> {"calls": [(start, end, [ids per dep], [distinct (start,end) of the merged inputs])], "out": None|code}"""
+class _Timeout(BaseException):
+    pass
+
+
+def _on_alarm(signum, frame):
+    raise _Timeout()
+
+
+def real_run(case, enc="endtime", timeout=30.0):
+    """-> {"calls": [(start, end, [ids per dep], [distinct (start,end) of the merged inputs])], "out": None|code}
+    A run that yields more results than there are input chunks, or does not finish within `timeout` seconds
+    (a normal run takes about a millisecond), is reported as RUNAWAY."""
+    import signal
+    import threading
     p = make_plugin(case)
     iters = {"d%d" % i: iter([real_chunk(c, enc) for c in cs]) for i, cs in enumerate(case["deps"])}
     limit = sum(len(cs) for cs in case["deps"]) + 5
     out = None
     n = 0
+    guard = threading.current_thread() is threading.main_thread()
+    if guard:
+        old = signal.signal(signal.SIGALRM, _on_alarm)
+        signal.setitimer(signal.ITIMER_REAL, timeout)
     try:
-        for _res in p.iter(iters):
-            n += 1
-            if n > limit:
-                out = "RUNAWAY"
-                break
-    except Exception as e:  # noqa
-        out = err_code(e)
+        try:
+            for _res in p.iter(iters):
+                n += 1
+                if n > limit:
+                    out = "RUNAWAY"
+                    break
+        except _Timeout:
+            out = "RUNAWAY"
+        except Exception as e:  # noqa
+            out = err_code(e)
+    finally:
+        if guard:
+            signal.setitimer(signal.ITIMER_REAL, 0)
+            signal.signal(signal.SIGALRM, old)
     return {"calls": p.calls, "out": out}
 
 
@@ -290,7 +313,7 @@ def predicates(case, r, max_passes):
     byid = [{q[2]: q for q in rows} for rows in R]
     n = len(R)
     if out == "RUNAWAY":
-        return "iter did not terminate within the number of input chunks"
+        return "iter did not terminate (more results than input chunks, or no progress for 30 s)"
     wf_inputs = all(well_formed_chunk(c) for cs in case["deps"] for c in cs)
     # 1. alignment: one identical interval for all inputs of a call, rows inside it
     for (s, e, idl, rngs) in calls:
@@ -470,7 +493,7 @@ def gen_exhaustive(ctx, cases):
             cases.append(mk_case([0, 1], sw_i(k), [a, _reid(b, 1)], tag="ex2d"))
             k += 1
     notes.append("2 deps of different kinds, <=%d row each, all chunkings into <=%d chunks: complete (%d pairs)" % (r2, c2, k))
-    for (nr, nc, budget) in ([(2, 2, 150000), (2, 3, 60000)] if big else [(1, 3, 3000), (2, 2, 4000)]):
+    for (nr, nc, budget) in ([(2, 2, 100000), (2, 3, 30000)] if big else [(1, 3, 3000), (2, 2, 4000)]):
         fl = flat(nr, nc)
         for _ in range(budget):
             cases.append(mk_case([0, 1], sw_for(rng), [rng.choice(fl), _reid(rng.choice(fl), 1)], tag="ex2d"))
@@ -487,7 +510,7 @@ def gen_exhaustive(ctx, cases):
     # --- three dependencies, one or two kinds; same-kind dependencies mostly share their rows
     pats = kind_patterns(3, 2)
     cf = configs(1, 2)
-    budget3 = 60000 if big else 5000
+    budget3 = 40000 if big else 5000
     for idx in range(budget3):
         kinds = pats[idx % len(pats)]
         chosen = {}
@@ -731,9 +754,14 @@ def shrink(case, failing):
     return cur
 
 
+class EnoughViolations(Exception):
+    pass
+
+
 class Sink:
     """collects generated cases and processes them in batches: model, implementation, diff, predicates"""
     BATCH = 40000
+    FIRST_BATCH = 4000      # a small first batch: a broken implementation is reported quickly
 
     def __init__(self, ctx, mp):
         self.ctx, self.mp = ctx, mp
@@ -748,8 +776,10 @@ class Sink:
 
     def append(self, case):
         self.buf.append(case)
-        if len(self.buf) >= self.BATCH:
+        if len(self.buf) >= (self.FIRST_BATCH if self.total == 0 else self.BATCH):
             self.flush()
+            if self.bad > 6:
+                raise EnoughViolations()
 
     def flush(self):
         cases, self.buf = self.buf, []
@@ -777,8 +807,8 @@ class Sink:
             reason = predicates(case, r, mp)
             if reason:
                 if self.bad <= 6:
-                    small = shrink(case, lambda c: predicates(c, real_run(c), mp) is not None)
-                    r2 = real_run(small)
+                    small = shrink(case, lambda c: predicates(c, real_run(c, timeout=3.0), mp) is not None)
+                    r2 = real_run(small, timeout=3.0)
                     ctx.violation("iter", "Plugin.iter violates C08: %s (implementation: %s)"
                                   % (predicates(small, r2, mp), fmt_real(r2)),
                                   {"input": show_case(small), "impl": fmt_real(r2), "unit": "iter",
@@ -788,26 +818,26 @@ class Sink:
                 self.n_disagree += 1
                 if self.bad <= 6:
                     def disagree(c):
-                        return fmt_real(real_run(c)) != lib.run_model("C08", [enc_case(c)])[0]
+                        return fmt_real(real_run(c, timeout=3.0)) != lib.run_model("C08", [enc_case(c)])[0]
                     small = shrink(case, disagree)
                     found = None
                     for nb in neighbourhood(small):      # search for a failing input around the disagreement
-                        rr = real_run(nb)
+                        rr = real_run(nb, timeout=3.0)
                         why = predicates(nb, rr, mp)
                         if why:
                             found = (nb, rr, why)
                             break
                     if found:
                         nb, rr, why = found
-                        nb = shrink(nb, lambda c: predicates(c, real_run(c), mp) is not None)
-                        rr = real_run(nb)
+                        nb = shrink(nb, lambda c: predicates(c, real_run(c, timeout=3.0), mp) is not None)
+                        rr = real_run(nb, timeout=3.0)
                         ctx.violation("iter", "Plugin.iter violates C08: %s (implementation: %s)"
                                       % (predicates(nb, rr, mp), fmt_real(rr)),
                                       {"input": show_case(nb), "impl": fmt_real(rr), "unit": "iter"})
                     else:
                         ctx.violation("iter", "model/implementation disagree on Plugin.iter (impl `%s`, model `%s`); "
                                       "the property predicates hold on this input and its neighbourhood"
-                                      % (fmt_real(real_run(small)), lib.run_model("C08", [enc_case(small)])[0]),
+                                      % (fmt_real(real_run(small, timeout=3.0)), lib.run_model("C08", [enc_case(small)])[0]),
                                       {"input": "corr:C08/iter", "case": show_case(small), "unit": "iter"},
                                       no_failing_input=True)
                 self.bad += 1
@@ -848,9 +878,12 @@ def run(ctx):
         for f in sorted(os.listdir(corpus_dir)):
             if f.endswith(".json"):
                 sink.append(load_case(json.load(open(os.path.join(corpus_dir, f)))["input"]))
-    gen_random(ctx, sink)
-    gen_exhaustive(ctx, sink)
-    sink.flush()
+    try:
+        gen_random(ctx, sink)
+        gen_exhaustive(ctx, sink)
+        sink.flush()
+    except EnoughViolations:
+        ctx.notes.append("generation stopped early: more than 6 violations / disagreements already recorded")
     ctx.count("iter", sink.total, len(sink.nontriv), sink.dist)
     ctx.coverage["disagreements"] = sink.n_disagree
     ctx.notes.append("timing: " + "; ".join(getattr(sink, "timing", [])))
